@@ -56,6 +56,10 @@ def intsFrom (lo : Int) : Nat → List Int
 def rangeVals (lo hi : Int) (inclusive : Bool) : List Int :=
   intsFrom lo (if inclusive then (hi - lo + 1).toNat else (hi - lo).toNat)
 def rangeIsPositive (lo hi : Int) : Bool := decide (0 ≤ lo) && decide (0 ≤ hi)
+/-- `MAX_RANGE_SIZE` (`NumericRange::call`, since /repo c4ff057: a larger range is the `TooLarge` error) -/
+def rangeCap : Int := 10000000
+/-- the size `NumericRange::call` compares with the cap -/
+def rangeTooLarge (lo hi : Int) (inclusive : Bool) : Bool := decide (hi - lo + (if inclusive then 1 else 0) > rangeCap)
 
 /-- `EnumerateArray::call`: each element paired with its position -/
 def enumerateFrom {β : Type} (i : Nat) : List β → List (β × Nat)
